@@ -36,6 +36,8 @@ def build(case, pattern=None):
         kw["use_graph_primitive"] = flag(case["ugp"])
     if form == "grid":
         h, w = case["shape"]
+        if case.get("before"):
+            gcheck.warm_grid(tuple(case["before"]))
         a = s.bool_array((h, w))
         graph.active_vertices_connected(s, a, **kw)
         flat = list(a)
@@ -235,7 +237,7 @@ def cases_for(tier):
                 out.append({"form": "vars", "n": 6, "edges": es, "acyclic": acyclic, "ugp": ugp, "cfg": False, "name": name})
     # structured mid-sized graphs (shared vertices between cycles, degree-4 trees, isolated vertices, cubic graphs), all 2^n patterns
     for name, n, es in graphref.zoo():
-        if tier == "quick" and n > 7:
+        if tier == "quick" and n > 7 and "merge-order" not in name:
             continue
         relab = name.endswith("~relabelled")
         for acyclic in (False, True):
@@ -258,6 +260,14 @@ def cases_for(tier):
                 out.append({"form": "grid", "n": h * w, "shape": [h, w], "acyclic": acyclic, "ugp": ugp, "cfg": False, "patterns": scale_patterns(h, w)})
             out.append({"form": "vars", "n": h * w, "edges": graphref.orient(graphref.grid_edges(h, w), 3), "acyclic": acyclic, "ugp": False, "cfg": False,
                         "shape": [h, w], "patterns": scale_patterns(h, w)})
+    # board histories: the grid form on board B right after board A in the same process (shapes that collide under careless cache keys)
+    for a, b in gcheck.grid_history_pairs(tier):
+        h, w = b
+        far = [(y, x) in ((0, 0), (h - 1, w - 1)) for y in range(h) for x in range(w)]
+        col = [x == 0 for y in range(h) for x in range(w)]
+        row = [y == 0 for y in range(h) for x in range(w)]
+        for acyclic in (False, True):
+            out.append({"form": "grid", "n": h * w, "shape": [h, w], "acyclic": acyclic, "ugp": False, "cfg": False, "before": list(a), "patterns": [far, col, row] + scale_patterns(h, w)[:3]})
     # large family (a few hand-picked patterns far beyond the exhaustive bound: thresholds such as 256 vertices)
     for n in ((300,) if tier == "quick" else (130, 257, 300, 600)):
         path = [(i, i + 1) for i in range(n - 1)]
